@@ -20,6 +20,11 @@ than mu0, mu1, s0, s1 (a `threshold` attribute set to None / plausible / implaus
 records as devices.GET_EYE and lab.GET_EYE_v2 store them, consistent and inconsistent with the four statistics) - and four
 eye objects actually measured by devices.GET_EYE; every estimator must return what it returns for the bare object.
 
+Values equal up to rounding (added after seeded wave 6): variance / sigma pairs one ulp ... 1e-8 apart (nextafter, k eps,
+`0.1**2` vs `0.01`, ...) in both orders and levels such as `0.1*3` vs `0.3`, for `utils.optimum_threshold` (root, likelihood
+equation and continuity at equal variances within a tolerance derived from the conditioning of the equation) and, on a
+slice, for THRESHOLD_EST and the estimator BERs (`near_equal_case`).
+
 The reference model below is written from the property text with scipy.special only; it shares no code with
 the library.  Tolerances: see `/verif/notes/C13.md` (every one is a rounding bound, the 1000/5000-point
 threshold grid band stated by the property, or quad's documented epsabs).
@@ -803,6 +808,234 @@ def measured_eye_case(case):
         if not close(vb, t, RT_CURVE + 40 * rnd / min(fs0, fs1), ah):
             V('ook.BER_analizer:estimator!=theory_BER' if kind == 'ook' else 'ppm.BER_analizer:estimator!=theory_BER:hard', f'{what} M={M}: estimator {vb!r}, theory_BER {t!r}')
     return res(viol=viol, obs=tuple(obs), nontrivial=informative(vals) and ('measured', case[0]), stats={'lib_calls': nlib, 'measured_eyes': 1})
+
+
+# ---- variances / sigmas / levels that are equal UP TO ROUNDING ------------------------------------------------------------
+# (strengthening after seeded wave 6)  The sigma pairs of the product above are either bit-identical or clearly different.  Two
+# variances that reach a caller through different arithmetic routes (0.1**2 and 0.01, a measured std squared and the same
+# number typed in, S and S*(1 + 1e-12)) are neither: a closed form that divides by (S1 - S0), or that switches to the
+# equal-variance limit only for S1 == S0, loses everything there.  The problem itself is perfectly well conditioned at equal
+# variances (the solution of (M-1) N(t;0,S0) = N(t;d,S1) is a smooth function of S1 through S1 = S0), so the statement's
+# clauses can be asserted with a conditioning-derived tolerance:
+#   F(t; d, S0, S1) = ln(M-1) + ln(S1/S0)/2 - t^2/(2 S0) + (t-d)^2/(2 S1) = 0,    dt/dx = -F_x/F_t    (implicit function theorem)
+#   F_t = -t/S0 + (t-d)/S1,  F_d = -(t-d)/S1,  F_S0 = -1/(2 S0) + t^2/(2 S0^2),  F_S1 = 1/(2 S1) - (t-d)^2/(2 S1^2),  F_L = 1
+# unit(t) = eps * [ (|mu0|+|mu1|)(1 + |F_d/F_t|) + (|F_S0| S0 + |F_S1| S1 + |L| + 1)/|F_t| + |mu0| + |t| ]
+# is what ONE relative rounding of each datum (mu0, mu1 -> d, S0, S1, the logarithm L) and of the result mu0 + t moves the
+# answer by.  NEAR_K units are allowed: a direct evaluation of any closed form has <= ~25 elementary operations, each worth at
+# most one unit when the algorithm is (mixed forward-backward) stable, and the double-precision reference root costs < 1 unit
+# (measured against 60-digit decimal arithmetic over the whole quick space: library 0.56, reference 0.54 units - i.e. NEAR_K
+# leaves a factor ~50 and is not fitted to the output).  A formula that cancels in mu0*S1 - mu1*S0 + s1*s0*sqrt(.) and divides by
+# S1 - S0 is wrong by ~ eps*(|mu0|+|mu1|+d)*S/|S1-S0| = 1/(relative difference) units.
+NEAR_K = 32
+NEAR_MS = [2, 4, 16, 256]
+# values that print alike / are "the same number" to the person who typed them, but differ in the last place(s)
+PRINT_SAME = [('0.1**2', 0.1 ** 2, '0.01', 0.01), ('0.3**2', 0.3 ** 2, '0.09', 0.09), ('0.1*3', 0.1 * 3, '0.3', 0.3),
+              ('0.3-0.1', 0.3 - 0.1, '0.2', 0.2), ('0.1+0.2', 0.1 + 0.2, '0.3', 0.3), ('1.1*1.1', 1.1 * 1.1, '1.21', 1.21),
+              ('0.7**2', 0.7 ** 2, '0.49', 0.49), ('1-0.9', 1 - 0.9, '0.1', 0.1), ('sqrt(0.0123)**2', math.sqrt(0.0123) ** 2, '0.0123', 0.0123)]
+PRINT_SAME = [p for p in PRINT_SAME if p[1] != p[3]]
+# offsets mu0 (in units of the scale): the OFFSETS and levels that are "0.3" / "0.2" by two arithmetic routes
+NEAR_OFFSETS = [0.0, 0.3, 0.1 * 3, 0.3 - 0.1, 0.2, -1.0, 5.0, -250.0, 1000.0]
+
+
+def near_perts(tier, eye_only=False):
+    """(name, x -> x') : x' equals x up to rounding.  One ulp either way, k eps for k in {1, 2, 8, 1e3, 1e6}, relative
+    differences 1e-14 ... 1e-8, both signs; simplest (closest) first."""
+    out = [('nextafter(x,+inf)', lambda x: float(np.nextafter(x, math.inf))), ('nextafter(x,0)', lambda x: float(np.nextafter(x, 0.0)))]
+    for k in (1, 2, 8, 1e3, 1e6):
+        out += [(f'x*(1+{k:g}eps)', lambda x, k=k: x * (1 + k * EPS)), (f'x*(1-{k:g}eps)', lambda x, k=k: x * (1 - k * EPS))]
+    for r in (1e-14, 1e-12, 1e-10, 1e-8):
+        out += [(f'x*(1+{r:g})', lambda x, r=r: x * (1 + r)), (f'x*(1-{r:g})', lambda x, r=r: x * (1 - r))]
+    if eye_only and tier == 'quick':
+        keep = {'nextafter(x,+inf)', 'nextafter(x,0)', 'x*(1+1000eps)', 'x*(1-1000eps)', 'x*(1+1e-10)', 'x*(1-1e-10)'}
+        out = [p for p in out if p[0] in keep]
+    return out
+
+
+def near_cases(tier):
+    """('near', tier, kind, M, base sigma | 'print-same', scale, run the eye-object functions too?)"""
+    if tier == 'quick':
+        bases = [(sg_, c) for c in (1.0, 1e-6, 1e6) for sg_ in (0.1, 0.3, 1.0)]
+        eye_bases = {(0.1, 1.0), (1.0, 1.0), (0.1, 1e-6), (0.1, 1e6)}
+        Ms = NEAR_MS
+    else:
+        bases = [(sg_, c) for c in [1.0] + scales(tier) for sg_ in sigmas(tier)]
+        eye_bases = {(sg_, 1.0) for sg_ in (0.1, 0.05, 0.3, 1.0)} | {(0.1, c) for c in scales(tier)}
+        Ms = [2, 4, 8, 16, 64, 256]
+    kinds = [('ook', 2)] + [('ppm', M) for M in Ms]
+    out = []
+    for kind, M in kinds:
+        out += [('near', tier, kind, M, 'print-same', c, True) for c in (1.0, 2.0 ** -40)]          # exact scalings keep the bit patterns
+    for b in bases:
+        out += [('near', tier, kind, M, b[0], b[1], b in eye_bases) for kind, M in kinds]
+    return out
+
+
+def near_unit(t, d, mu0, mu1, S0, S1, M):
+    """see the comment block above: displacement of the solution by one relative rounding of every datum"""
+    L = math.log((M - 1) * math.sqrt(S1 / S0))
+    Ft = -t / S0 + (t - d) / S1
+    Fd = -(t - d) / S1
+    FS0 = -1 / (2 * S0) + t * t / (2 * S0 * S0)
+    FS1 = 1 / (2 * S1) - (t - d) ** 2 / (2 * S1 * S1)
+    m = abs(mu0) + abs(mu1)
+    return EPS * (m * (1 + abs(Fd / Ft)) + (abs(FS0) * S0 + abs(FS1) * S1 + abs(L) + 1) / abs(Ft) + abs(mu0) + abs(t)), abs(Ft)
+
+
+def near_equal_case(case):
+    """case = ('near', tier, kind, M, base, scale, eyes).  base = a sigma: variance pairs (S, S') and (S', S) with S = (sigma*scale)^2
+    and S' = every perturbation of near_perts; base = 'print-same': the PRINT_SAME pairs (times an exact power of two).  For
+    every pair: the mu ladder x NEAR_OFFSETS through utils.optimum_threshold.  With `eyes`: sigma pairs (s, s') / the
+    PRINT_SAME values as sigmas through THRESHOLD_EST and the estimator BERs of ook / ppm."""
+    _, tier, kind, M, base, c, eyes = case
+    from opticomlib import ook, ppm, utils as U
+    lad = ladder(tier)
+    viol, obs = [], []
+    st = dict(nearly_equal_variance_pairs=0, nearly_equal_optimum_threshold_calls=0, nearly_equal_sigma_eye_objects=0, lib_calls=0,
+              nearly_equal_solution_in_range=0)
+    mod, Marg = ('ook', None) if kind == 'ook' else ('ppm', M)
+    LM = math.log(M - 1)
+
+    def V(key, msg):
+        viol.append((key, f'{kind} M={M}: {msg}'))
+
+    if base == 'print-same':
+        vpairs = []
+        for na, a, nb, b in PRINT_SAME:
+            vpairs += [(a * c, b * c, f'S0 = {na}, S1 = {nb}' + (f' (both times {c!r})' if c != 1 else '')),
+                       (b * c, a * c, f'S0 = {nb}, S1 = {na}' + (f' (both times {c!r})' if c != 1 else ''))]
+        spairs = [(a, b, t.replace('S0', 's0').replace('S1', 's1')) for a, b, t in vpairs]
+    else:
+        S, sg_ = (base * c) ** 2, base * c
+        vpairs, spairs = [], []
+        for pn, pf in near_perts(tier):
+            vpairs += [(S, pf(S), f'S0 = x = {S!r}, S1 = {pn}'), (pf(S), S, f'S1 = x = {S!r}, S0 = {pn}')]
+        for pn, pf in near_perts(tier, eye_only=True):
+            spairs += [(sg_, pf(sg_), f's0 = x = {sg_!r}, s1 = {pn}'), (pf(sg_), sg_, f's1 = x = {sg_!r}, s0 = {pn}')]
+
+    cs_v = math.sqrt(c) if base == 'print-same' else c          # scale of the sigmas (and of the offsets) of the variance pairs
+    # ---- utils.optimum_threshold on variances equal up to rounding ------------------------------------------------------
+    for S0, S1, label in vpairs:
+        st['nearly_equal_variance_pairs'] += 1
+        s = math.sqrt(max(S0, S1))
+        for q in lad:
+            tb = ub = None
+            for off in NEAR_OFFSETS:
+                mu0 = off * cs_v
+                mu1 = mu0 + q * s
+                dd = mu1 - mu0
+                what = f'mu0={mu0!r} mu1={mu1!r} S0={S0!r} S1={S1!r} ({label}; relative difference {(S1 - S0) / S0:.3g})'
+                roots = opt_thr_roots(dd, S0, S1, M)
+                t_eq = dd / 2 + S0 * LM / dd                       # solution for S1 == S0 (OOK: the midpoint)
+                tref = min(roots, key=lambda x: abs(x - t_eq))     # the root that continues it (the other one is ~ 2 S d/(S1-S0) away)
+                try:
+                    ot = float(U.optimum_threshold(mu0, mu1, S0, S1, mod, Marg))
+                    exc = None
+                except ArithmeticError as ex:
+                    ot, exc = math.nan, f'{type(ex).__name__}: {ex}'
+                st['nearly_equal_optimum_threshold_calls'] += 1
+                obs.append(ot if ot == ot else 'nan')
+                if not math.isfinite(ot):
+                    V('optimum_threshold:nearly-equal-variances:not-finite', f'{what}: {exc or ot!r}; the solution of (M-1)N0=N1 is {mu0 + tref!r}')
+                    continue
+                t = ot - mu0
+                unit, aFt = near_unit(tref, dd, mu0, mu1, S0, S1, M)
+                tol = NEAR_K * unit
+                resid, sc = log_residual(t, dd, S0, S1, M)
+                # |F(t)| <= |F_t| * (allowed displacement) + rounding of the residual's own evaluation (5 terms of size <= sc)
+                if abs(t - tref) > tol or abs(resid) > aFt * tol + 16 * EPS * sc:
+                    V('optimum_threshold:nearly-equal-variances:does-not-solve-(M-1)N0=N1',
+                      f'{what}: r={ot!r}; the solution is {mu0 + tref!r} (|difference| {abs(t - tref)!r}, allowed {tol!r} = {NEAR_K} roundings of the data); '
+                      f'ln[(M-1)N0/N1] at r = {resid!r} (allowed {aFt * tol + 16 * EPS * sc!r})')
+                inside = -tol <= tref <= dd + tol
+                st['nearly_equal_solution_in_range'] += inside
+                if inside and not (-2 * tol <= t <= dd + 2 * tol):
+                    V('optimum_threshold:nearly-equal-variances:outside-[mu0,mu1]', f'{what}: r={ot!r} although the solution {mu0 + tref!r} lies in [mu0, mu1]')
+                # continuity at equal variances: |dt/dS1| = |S - (t-d)^2|/(2 S d) <= (1 + (t-d)^2/S)/(2 d) at S1 = S0; twice that covers
+                # its variation along the path S0 -> S1 (relative difference <= 1e-8, (t-d)^2/S <= 3e7)
+                ctol = abs(S1 - S0) / dd * (1 + (t_eq - dd) ** 2 / S0) + tol
+                if abs(t - t_eq) > ctol:
+                    V('optimum_threshold:nearly-equal-variances:far-from-equal-variance-solution',
+                      f'{what}: r={ot!r}; for S1 = S0 the solution is {mu0 + t_eq!r}' + (' (the midpoint)' if M == 2 else '') +
+                      f'; |difference| {abs(t - t_eq)!r}, the variance difference explains at most {ctol!r}')
+                if off == 0.0:
+                    tb, ub = t, unit
+                elif tb is not None and abs(t - tb) > NEAR_K * (unit + ub):
+                    V('optimum_threshold:nearly-equal-variances:not-shift-invariant', f'{what}: r-mu0 = {t!r}, at mu0=0: {tb!r} (allowed {NEAR_K * (unit + ub)!r})')
+    st['lib_calls'] += st['nearly_equal_optimum_threshold_calls']
+
+    # ---- the eye-object functions on sigmas equal up to rounding ------------------------------------------------------------
+    if eyes:
+        scale = 1.0 if kind == 'ook' else bit(M)
+        ah = 0.0 if kind == 'ook' else at_hard(M)
+
+        def est(ey):
+            th = float(ook.THRESHOLD_EST(ey) if kind == 'ook' else ppm.THRESHOLD_EST(ey, M))
+            if kind == 'ook':
+                return th, {'ook': float(ook.BER_analizer('estimator', eye_obj=ey))}, 2
+            return th, {'hard': float(ppm.BER_analizer('estimator', eye_obj=ey, M=M, decision='hard')),
+                        'soft': float(ppm.BER_analizer('estimator', eye_obj=ey, M=M, decision='soft'))}, 3
+        eq_cache = {}
+        for s0, s1, label in spairs:
+            s = max(s0, s1)
+            rel = abs(s1 - s0) / s0
+            for q in lad:
+                d = q * s
+                step = d / 999
+                tm, gm, _ = band(kind, d, s0, s1, M, 1000)
+                fobj = (lambda x: float(ook_obj(x, d, s0, s1))) if kind == 'ook' else (lambda x: float(hard_obj(x, d, s0, s1, M)))
+                for off in NEAR_OFFSETS[:2]:
+                    mu0 = off * c
+                    mu1 = mu0 + d
+                    rnd = 8 * EPS * (abs(mu0) + abs(mu1))
+                    what = f'mu0={mu0!r} mu1={mu1!r} s0={s0!r} s1={s1!r} ({label}; relative difference {(s1 - s0) / s0:.3g})'
+                    th, bers, n = est(_eye(mu0, mu1, s0, s1)); st['lib_calls'] += n
+                    st['nearly_equal_sigma_eye_objects'] += 1
+                    obs.append((th,) + tuple(bers.values()))
+                    if not (mu0 <= th <= mu1):
+                        V(f'{kind}.THRESHOLD_EST:nearly-equal-sigmas:outside-[mu0,mu1]', f'{what}: threshold {th!r}')
+                    else:
+                        fo = fobj(min(max(th - mu0, 0.0), d))
+                        slack = gm * (RT_GRID + 40 * rnd / min(s0, s1)) + ah
+                        if fo > gm + slack:
+                            V(f'{kind}.THRESHOLD_EST:nearly-equal-sigmas:not-a-grid-minimiser', f'{what}: error integral at returned threshold {fo!r} > 1000-point grid minimum {gm!r}')
+                    if kind == 'ook':
+                        # the two grid points next to the midpoint beat the next pair by the relative amount z phi(z)/Q(z) (step/s)^2, z = d/2s;
+                        # where that is resolved by the rounding of the objective, the argmin is one of them (the minimiser moves by
+                        # ~ rel * s (1 + q^2/4)/(2 q) << step/2)
+                        z = d / (2 * s)
+                        sep = z * math.exp(-0.5 * z * z) / SQ2PI / float(Qf(z)) * (step / s) ** 2
+                        if sep > 1e3 * (EPS + 40 * rnd / min(s0, s1)) and abs(th - (mu0 + mu1) / 2) > step / 2 * (1 + 1e-9) + rnd:
+                            V('ook.THRESHOLD_EST:nearly-equal-sigmas:not-midpoint', f'{what}: threshold {th!r}, midpoint {(mu0 + mu1) / 2!r}, half grid step {step / 2!r}')
+                    for dec, v in bers.items():
+                        if dec == 'soft':
+                            if M == 2:
+                                cf = float(Qf(d / math.hypot(s0, s1)))
+                                if not close(v, cf, RT_CURVE, AT_SOFT):
+                                    V('ppm.BER_analizer:estimator:soft:nearly-equal-sigmas:M=2:Q(mu/sqrt(s0^2+s1^2))', f'{what}: {v!r}, closed form {cf!r}')
+                        else:
+                            slack = gm * scale * (RT_GRID + 40 * rnd / min(s0, s1)) + ah
+                            if not np.isfinite(v) or v < tm * scale * (1 - RT_GRID) - slack or v > gm * scale + slack:
+                                V(f'{kind}.BER_analizer:estimator:{dec}:nearly-equal-sigmas:outside-grid-band', f'{what}: {v!r} not in [{tm * scale!r}, {gm * scale!r}]')
+                    # continuity: the same eye with s1 := s0 exactly.  d ln BER / d ln s1 <= z |dlnQ/dz| <= 20 * 40, so a relative
+                    # difference `rel` of the sigmas moves every BER by less than 1e3 * rel (<= 1e-5), on top of RT_CURVE / the floors
+                    key = (q, off, s0)
+                    if key not in eq_cache:
+                        _, eq_cache[key], n = est(_eye(mu0, mu1, s0, s0)); st['lib_calls'] += n
+                    for dec, v in bers.items():
+                        w = eq_cache[key][dec]
+                        if not close(v, w, RT_CURVE + 1e3 * rel + 40 * rnd / min(s0, s1), 2 * AT_SOFT if dec == 'soft' else ah):
+                            V(f'{kind}.BER_analizer:estimator:{dec}:nearly-equal-sigmas:far-from-equal-sigma-value', f'{what}: {v!r}; {w!r} for s1 = s0')
+                    if off == 0.0:
+                        if kind == 'ook':
+                            tb_ = float(ook.theory_BER(d, s0, s1)); st['lib_calls'] += 1
+                            if not close(bers['ook'], tb_, RT_CURVE):
+                                V('ook.BER_analizer:estimator!=theory_BER:nearly-equal-sigmas', f'{what}: estimator {bers["ook"]!r}, theory_BER {tb_!r}')
+                        else:
+                            for dec in ('hard', 'soft'):
+                                tb_ = float(ppm.theory_BER(d, s0, s1, M, dec)); st['lib_calls'] += 1
+                                if not close(bers[dec], tb_, RT_CURVE, AT_SOFT if dec == 'soft' else ah):
+                                    V(f'ppm.BER_analizer:estimator!=theory_BER:{dec}:nearly-equal-sigmas', f'{what}: estimator {bers[dec]!r}, theory_BER {tb_!r}')
+    return res(viol=viol, obs=tuple(obs), nontrivial=bool(st['nearly_equal_solution_in_range']) and ('near', kind, M, base, c), stats=st)
 
 
 # ---------------------------------------------------------------------------------------------------------
@@ -1711,10 +1944,15 @@ def run(ctx):
     tier = ctx.tier
     sg_, lad = sigmas(tier), ladder(tier)
     k = 3 if ctx.quick else 4
+    ncs = near_cases(tier)
+    near_txt = ("variances / sigmas equal UP TO ROUNDING: (x, y) and (y, x) for y in " + str([n for n, _ in near_perts(tier)]) +
+                f" at {len({(c[4], c[5]) for c in ncs if c[4] != 'print-same'})} (sigma, scale) bases and the pairs " + str([(a_, b_) for a_, _, b_, _ in PRINT_SAME]) +
+                f" x [OOK | PPM M in {sorted({c[3] for c in ncs})}] x the mu ladder x offsets {NEAR_OFFSETS} for utils.optimum_threshold "
+                "(conditioning-derived tolerance) and, on a slice, for THRESHOLD_EST and the estimator BERs")
     ctx.rule(f'C13: (0) minimal inputs of DESIGN 8 #8-#12; (1) full product s0,s1 in {sg_} x mu/max(s0,s1) in {lad} x '
              f'[OOK | PPM M in {MS} x (hard, soft)] for ook/ppm.theory_BER incl. vector calls; (2) the same product x offsets mu0 in {OFFSETS} '
              f'for THRESHOLD_EST, BER_analizer("estimator") and utils.optimum_threshold, and at the offsets {extras_offsets(tier)} x eye objects that carry '
-             f'additional attributes {EXTRAS} (same results as the bare object), + {len(MEASURED)} eye objects measured by devices.GET_EYE x M in {MEASURED_MS}; (3) receiver model: every point within {k} deviations of two '
+             f'additional attributes {EXTRAS} (same results as the bare object), + {len(MEASURED)} eye objects measured by devices.GET_EYE x M in {MEASURED_MS}, + {near_txt}; (3) receiver model: every point within {k} deviations of two '
              f'baselines (unamplified / amplified G=20 dB, NF=5 dB) over the axes {{{", ".join(f"{a}:{len(v)}" for a, v in AXES.items())}}} with the full '
              f'P_avg ladder {P_LADDER} at each point, fixed thresholds {THRESHOLDS}, and the helper results chained into the slot-level formulas; '
              f'(4) PD / EDFA noise scales captured from the scripted RNG over a full product of r, R_L, T, Fn, P_avg, ER, BW; '
@@ -1734,6 +1972,7 @@ def run(ctx):
     t1 = time.time()
     ctx.pmap('estimators', estimators_case, fcases, horizon=240)
     ctx.pmap('estimators', measured_eye_case, [(i,) for i in range(len(MEASURED))], horizon=120)
+    ctx.pmap('estimators', near_equal_case, near_cases(tier), horizon=240)
     t2 = time.time()
     pts = rx_points(k)
     ctx.extra['receiver_lattice'] = {'k': k, 'points': len(pts), 'baselines': 2, 'P_avg_ladder': len(P_LADDER)}
